@@ -115,7 +115,8 @@ fn bytes_of(log: &[Act]) -> Vec<u8> {
 
 fn expected(m: &Model, stdin: &[u8]) -> Option<Expected> {
     if m.help {
-        return None;
+        // help text only: nothing is executed, nothing is read (a file error still sets the exit status)
+        return Some(Expected { stdout: None, exit: if m.file_error { 1 } else { 0 }, stderr_nonempty: Some(m.file_error || m.warnings), consumes_input: false });
     }
     if m.file_error {
         return Some(Expected { stdout: Some(Vec::new()), exit: 1, stderr_nonempty: Some(true), consumes_input: false });
@@ -387,6 +388,15 @@ fn cases(tier: Tier) -> Vec<Case> {
             push(&mut out, s(&[b, "-i16", "-O1"]), code, b"", true);
         }
     }
+    // 4b. help and a file that is not valid UTF-8
+    for h in ["-h", "-help", "--help"] {
+        push(&mut out, s(&[h]), s(&[PROBE_ECHO]), b"AB", false);
+        push(&mut out, s(&[h, "--bc-int"]), s(&[PROBE_LIMIT]), b"AB", true);
+    }
+    for b in backends {
+        push(&mut out, s(&[b]), s(&["-f", "bad.bf"]), b"AB", false);
+        push(&mut out, s(&[b]), s(&[PROBE_ORDER_A, "-f", "bad.bf", PROBE_ORDER_B]), b"AB", false);
+    }
     // 5. which executor really runs: an executable anonymous mapping appears iff the JIT was selected
     for flags in [
         s(&[]),
@@ -416,6 +426,7 @@ fn file_content(name: &str) -> Option<String> {
         "a.bf" => Some(PROBE_ORDER_A.to_string()),
         "b.bf" => Some(PROBE_ORDER_B.to_string()),
         "c.bf" => Some("comment é [-] ++++++++[>++++++++<-]>+.\n".to_string()),
+        // bad.bf exists but is not valid UTF-8: reported like an unreadable file
         _ => None,
     }
 }
@@ -430,6 +441,7 @@ fn judge(ctx: &mut WorkerCtx, dir: &str, case: &Case) {
         let _ = std::fs::write(format!("{dir}/{n}"), c);
     }
     let _ = std::fs::write(format!("{dir}/c.bf"), file_content("c.bf").unwrap());
+    let _ = std::fs::write(format!("{dir}/bad.bf"), [b'+', b'.', 0xff, 0xfe, b'+', b'.']);
     ctx.count("evaluations", 1);
     ctx.count("executions", 1);
     ctx.distinct(fnv(case.args.join("\u{1}").as_bytes()) ^ fnv(&case.stdin));
@@ -443,7 +455,9 @@ fn judge(ctx: &mut WorkerCtx, dir: &str, case: &Case) {
             problems.push(format!("stdout {:?} but the model gives {:?}", String::from_utf8_lossy(&ran.stdout[..ran.stdout.len().min(120)]), String::from_utf8_lossy(&want[..want.len().min(120)])));
         }
     } else if ran.stdout.is_empty() {
-        problems.push("no machine code printed".into());
+        problems.push("nothing printed".into());
+    } else if m.help && !ran.stdout.starts_with(b"Usage:") {
+        problems.push("help text expected on stdout".into());
     }
     if ran.exit != Some(exp.exit) {
         problems.push(format!("exit status {:?}, expected {}", ran.exit, exp.exit));
@@ -564,8 +578,8 @@ pub fn info(tier: Tier) -> CheckInfo {
              printer whose byte count separates in-place / IR / bytecode budgets, echo of stdin, --static x width; (2) every print option \
              x level x width: exact printed IR / bytecode text (the level's only observable), machine code non-empty, exit 0, stdin \
              offset 0; (3) every ordered pair of conflicting flags per group (executor/print kind, width, level): last one wins; invalid \
-             and missing --limit / -f operands; (4) code placement: two args in both orders, file+arg, arg+file, two files, missing file, \
-             unbalanced code, comment file, empty — for every backend, flags before and after the code; (5) strace -e trace=mmap on 14 \
+             and missing --limit / -f operands; (4) code placement: two args in both orders, file+arg, arg+file, two files, missing file, file that is not valid UTF-8, \
+             unbalanced code, comment file, empty, the help flags — for every backend, flags before and after the code; (5) strace -e trace=mmap on 14 \
              backend-selecting shapes: an executable anonymous mapping appears iff the baseline JIT was selected. Probe separation is \
              recomputed through the library in every run. evaluations = process runs; distinct = distinct (argv, stdin).",
             if tier == Tier::Quick { "full product" } else { "full product, also with flags after the code, with --static and with each print option before and after the selections" }
